@@ -450,9 +450,12 @@ Section WithFacts.
   (** excludes *)
   Definition h_excludes (x : ctx) (st : vstate) (c : value) (field : key) (v : value) : res hout :=
     let exs := if hashable c then [c] else match c with VList l => l | _ => [] end in
-    match assoc_get field (x_schema x) with
+    match (match assoc_get field (x_schema x) with
+           | None => None
+           | Some rs0 => Some (resolve_rules_set (x_cfg x) rs0)
+           end) with
     | None => Raise KeyError "_validate_excludes"
-    | Some (VDict rs) =>
+    | Some (Some (VDict rs)) =>
         let req := truthy (match assoc_get (KStr "required") rs with
                            | Some r => r
                            | None => VBool (c_require_all (x_cfg x)) end) in
@@ -592,9 +595,12 @@ Section WithFacts.
 
     (** *of *)
     Definition inherit_rules (x : ctx) (field : key) (def : dict) : res dict :=
-      match assoc_get field (x_schema x) with
+      match (match assoc_get field (x_schema x) with
+             | None => None
+             | Some rs0 => Some (resolve_rules_set (x_cfg x) rs0)
+             end) with
       | None => Raise KeyError "__validate_logical"
-      | Some (VDict own) =>
+      | Some (Some (VDict own)) =>
           let d1 := fold_left (fun d rule =>
                                  if negb (assoc_mem (KStr rule) d)
                                  then match assoc_get (KStr rule) own with
@@ -604,8 +610,7 @@ Section WithFacts.
                                  else d) (f_of_inherit F) def in
           Ok (if assoc_mem (KStr "allow_unknown") d1 then d1
               else assoc_set (KStr "allow_unknown") (c_allow_unknown (x_cfg x)) d1)
-      | Some (VStr _) => Raise TypeError "__validate_logical"   (* substring test on a reference name *)
-      | Some _ => Raise TypeError "__validate_logical"
+      | Some _ => Raise AttributeError "__validate_logical"   (* unresolvable reference: None has no such member *)
       end.
 
     Fixpoint logical_loop (x : ctx) (op : string) (field : key) (i : Z) (defs : list value)
